@@ -12,6 +12,11 @@ Theorem containment_insert_refines_list_insert : forall i x ks,
   view (direct_insert i x ks) = py_insert i x (view ks) /\ others (direct_insert i x ks) = others ks.
 Proof. exact direct_insert_refines. Qed.
 Print Assumptions containment_insert_refines_list_insert.
+(* hypothesis satisfiable: three members interleaved with two children of another kind, insertion at index -1 *)
+Definition ex_kids : list kid := [(1, true); (8, false); (2, true); (9, false); (3, true)].
+Example containment_insert_refines_list_insert_hyps_sat :
+  NoDup (map fst ex_kids) /\ view (direct_insert (-1) 7 ex_kids) = [1; 2; 7; 3] /\ others ex_kids = [8; 9].
+Proof. split; [cbn; repeat (apply NoDup_cons; [cbn; intuition discriminate|]); apply NoDup_nil|split; reflexivity]. Qed.
 
 (* 2. deleting the member at a valid index gives del l[i]; other kinds untouched *)
 Theorem containment_delete_refines_delitem : forall i ks k m, NoDup (map fst ks) ->
@@ -19,8 +24,14 @@ Theorem containment_delete_refines_delitem : forall i ks k m, NoDup (map fst ks)
   Some (view (remove_kid m ks)) = py_delitem i (view ks) /\ others (remove_kid m ks) = others ks.
 Proof. exact delete_refines. Qed.
 Print Assumptions containment_delete_refines_delitem.
+(* hypotheses satisfiable together: same parent, del l[-2] removes member 2 *)
+Example containment_delete_refines_delitem_hyps_sat :
+  NoDup (map fst ex_kids) /\ py_index (length (view ex_kids)) (-2) = Some 1%nat /\ nth_error (view ex_kids) 1 = Some 2.
+Proof. split; [cbn; repeat (apply NoDup_cons; [cbn; intuition discriminate|]); apply NoDup_nil|split; reflexivity]. Qed.
 
 (* 3. attribute-link lists *)
+(* by definition of attr_insert: its body is literally that of py_insert (the proof is reflexivity); what ties
+   attr_insert to AttrProxyAccessor.insert is the differential run of harness/c08.py *)
 Theorem attribute_insert_refines : forall i x l, attr_insert i x l = py_insert i x l.
 Proof. exact attr_insert_is_py_insert. Qed.
 Print Assumptions attribute_insert_refines.
@@ -28,6 +39,8 @@ Theorem attribute_delete_refines_partial : forall l k x, NoDup l -> nth_error l 
   attr_delete x l = firstn k l ++ skipn (S k) l.
 Proof. exact attr_delete_refines. Qed.
 Print Assumptions attribute_delete_refines_partial.
+Example attribute_delete_refines_partial_hyps_sat : NoDup [5; 6; 7] /\ nth_error [5; 6; 7] 1 = Some 6.
+Proof. split; [repeat (apply NoDup_cons; [cbn; intuition discriminate|]); apply NoDup_nil|reflexivity]. Qed.
 (* without the NoDup guard the statement is false: deleting by value removes every occurrence *)
 Theorem attribute_delete_refuted : attr_delete 5 [5; 6; 5] = [6] /\ py_delitem 0 [5; 6; 5] = Some [6; 5].
 Proof. exact attr_delete_duplicates_refuted. Qed.
